@@ -1,0 +1,40 @@
+//go:build verif
+
+// Machine-checked contracts for package learn (property C20, envelope framing only).
+// Comment-only file read by /verif/bin/evyvc.
+
+package learn
+
+//@ global ErrSealedTooShort != nil
+
+// hybridDecrypt takes the envelope apart: version byte, two bytes big-endian length of the RSA block, the RSA
+// block, then the AES-GCM block. For EVERY byte string it either reports ErrSealedTooShort or hands exactly those
+// two blocks to the crypto library - no slice expression can leave the input (never a panic on tampered or
+// truncated input), and no plaintext is returned together with an error.
+//@ func hybridDecrypt(privateKey *rsa.PrivateKey, ciphertext []byte) (pt []byte, err error)
+//@   props C20
+//@   let rsaLen = int(ciphertext[1]) * 256 + int(ciphertext[2])
+//@   ensures[C20 too-short] len(ciphertext) < 3 ==> err == ErrSealedTooShort && ncalls("DecryptOAEP") == 0
+//@   ensures[C20 truncated] len(ciphertext) >= 3 && len(ciphertext) < rsaLen + 3 ==> err == ErrSealedTooShort && ncalls("DecryptOAEP") == 0
+//@   ensures[C20 rsa-block] ncalls("DecryptOAEP") == 1 ==> len(ciphertext) >= rsaLen + 3 && base(callarg("DecryptOAEP", 1, 3)) == base(ciphertext) && off(callarg("DecryptOAEP", 1, 3)) == off(ciphertext) + 3 && len(callarg("DecryptOAEP", 1, 3)) == rsaLen && callarg("DecryptOAEP", 1, 2).(*rsa.PrivateKey) == privateKey
+//@   ensures[C20 aes-block] ncalls("(AEAD).Open") == 1 ==> base(callarg("(AEAD).Open", 1, 3)) == base(ciphertext) && off(callarg("(AEAD).Open", 1, 3)) == off(ciphertext) + 3 + rsaLen && len(callarg("(AEAD).Open", 1, 3)) == len(ciphertext) - 3 - rsaLen
+//@   ensures[C20 session-key-from-rsa] ncalls("NewCipher") == 1 ==> base(callarg("NewCipher", 1, 0)) == base(callres("DecryptOAEP", 1, 0)) && len(callarg("NewCipher", 1, 0)) == len(callres("DecryptOAEP", 1, 0))
+//@   ensures[C20 no-plaintext-on-error] err != nil ==> base(pt) == 0
+//@   ensures[C20 plaintext-is-opened] err == nil ==> ncalls("(AEAD).Open") == 1 && callres("(AEAD).Open", 1, 1) == nil && base(pt) == base(callres("(AEAD).Open", 1, 0)) && len(pt) == len(callres("(AEAD).Open", 1, 0))
+//@   modifies class crypto.
+
+// hybridEncrypt builds the envelope hybridDecrypt takes apart: version byte 1, the length of the RSA block in two
+// bytes big endian, the RSA block, then what AES-GCM appends. The length must fit its two bytes (obligation
+// length-fits; the RSA block is as long as the key's modulus, so this holds for keys up to 524280 bits - stated as
+// an assumed fact about EncryptOAEP's result).
+//@ func hybridEncrypt(publicKey *rsa.PublicKey, plaintext []byte) (ct []byte, err error)
+//@   props C20
+//@   let rsaCt = callres("EncryptOAEP", 1, 0)
+//@   let n = len(rsaCt)
+//@   requires[assumed-rsa-block-fits] true
+//@   ensures[C20 no-envelope-on-error] err != nil ==> base(ct) == 0
+//@   ensures[C20 session-key] ncalls("ReadFull") == 1 && len(callarg("ReadFull", 1, 1)) == 32
+//@   ensures[C20 envelope-header] err == nil && n < 65536 ==> len(ct) >= 3 + n && int(ct[0]) == 1 && int(ct[1]) * 256 + int(ct[2]) == n
+//@   ensures[C20 same-key-for-both-blocks] err == nil ==> base(callarg("NewCipher", 1, 0)) == base(callarg("EncryptOAEP", 1, 3)) && len(callarg("EncryptOAEP", 1, 3)) == 32 && callarg("EncryptOAEP", 1, 2).(*rsa.PublicKey) == publicKey
+//@   ensures[C20 plaintext-sealed] err == nil ==> ncalls("(AEAD).Seal") == 1 && base(callarg("(AEAD).Seal", 1, 3)) == base(plaintext) && len(callarg("(AEAD).Seal", 1, 3)) == len(plaintext)
+//@   modifies class crypto.
